@@ -35,7 +35,7 @@ REQUIRED_CLAUSES = [
     "handed-over=bulk-added", "dependent-timings", "queue-drops-only-when-full", "downsample-reduces-only", "throughput-from-all-samples",
 ]
 REQUIRED_FEATURES = {"over-commit": 3, "long-task-ticks": 2, "composite": 2, "small-queue": 2, "downsample": 2, "fine-preemption": 5, "multi-worker": 5}
-BUDGET = {"quick": {"cases": 700, "seconds": 34}, "thorough": {"cases": 15000, "seconds": 700}}
+BUDGET = {"quick": {"cases": 700, "seconds": 27}, "thorough": {"cases": 15000, "seconds": 700}}
 
 
 # ------------------------------------------------------------------------------------------------------------ generator
@@ -79,7 +79,8 @@ def gen_case(rng):
             for t in tasks:
                 t["iterations"], t["requests"] = 1, [[{"wire": 1}]]
                 t.pop("target_throughput", None)
-                t["svc"] = {"mode": "const", "base": wake * rng.choice([1, 1, 2]) + rng.choice([0.0002, 0.0008, 0.0015]), "seed": 1}
+                # just after the wake-up (actor yields to the executor) or just before it (executor yields to the actor)
+                t["svc"] = {"mode": "const", "base": wake * rng.choice([1, 1, 2]) + rng.choice([0.0002, 0.0008, 0.0015, -0.0002, -0.0008, -0.0015]), "seed": 1}
             case["fine"] = True
             case["wakeup_jitter"] = 0.0
             case["delay"] = "zero"
@@ -129,12 +130,24 @@ def make_instrument(case, rng):
 
         orig_add = driver.Sampler.add
 
+        import queue as _queue
+
         def add(sampler, *a, **kw):
-            if sampler.q.full():
-                tr.queue_full_at_add += 1
-            else:
-                md = a[3] if len(a) > 3 else kw.get("meta_data")
-                tr.added_ids.append(md.get("verif_id") if isinstance(md, dict) else None)
+            # what the sampler really accepted is observed at its queue (the only place that knows under thread interleavings)
+            q = sampler.q
+            if not hasattr(q, "_verif_put"):
+                real_put = q.put_nowait
+
+                def put_nowait(sample):
+                    try:
+                        real_put(sample)
+                    except _queue.Full:
+                        tr.queue_full_at_add += 1
+                        raise
+                    tr.added_ids.append(sample_id(sample))
+
+                q._verif_put = True
+                q.put_nowait = put_nowait
             return orig_add(sampler, *a, **kw)
 
         driver.Sampler.add = add
@@ -216,7 +229,8 @@ def make_instrument(case, rng):
         if case.get("fine"):
             w = driver.Worker
             tr.preempt = preempt.Preempt(k, [w.receiveMsg_WakeupMessage.__wrapped__ if hasattr(w.receiveMsg_WakeupMessage, "__wrapped__") else inner(w.receiveMsg_WakeupMessage),
-                                             w.drive, w.send_samples], prob=0.25, delta=case.get("preempt_delta", 0.002), rng=rng)
+                                             w.drive, w.send_samples], prob=0.25, delta=case.get("preempt_delta", 0.002), rng=rng,
+                                         executor_functions=[driver_sampler_add_original()])
             tr.preempt.enable()
             undo.append(tr.preempt.disable)
 
@@ -227,6 +241,23 @@ def make_instrument(case, rng):
         return undo_all
 
     return instrument
+
+
+def driver_sampler_add_original():
+    """The real Sampler.add below the recording wrappers (its code object is what the executor thread runs)."""
+    f = driver.Sampler.add
+    seen = set()
+    while f.__code__.co_filename.startswith("/verif") and id(f) not in seen:
+        seen.add(id(f))
+        nxt = None
+        for c in f.__closure__ or ():
+            v = c.cell_contents
+            if callable(v) and getattr(v, "__name__", "") == "add":
+                nxt = v
+        if nxt is None:
+            break
+        f = nxt
+    return f
 
 
 def inner(fn):
@@ -380,6 +411,7 @@ def one_case(ctx, rng, explicit=None):
         feats.add("fine-preemption")
         ctx.feature("preemption-points", tr.preempt.points)
         ctx.feature("preemption-switches", tr.preempt.switches)
+        ctx.feature("preemption-actor-inside-executor", tr.preempt.actor_in_executor)
         for p in tr.kernel.distinct_switch_points:
             ctx.distinct("switch-points", p)
     check(ctx, case, tr, problems, feats)
